@@ -23,7 +23,7 @@ func defsC17() []*ph.Def {
 				{Name: "inc", Kind: ph.Incr},
 				{Name: "define", Kind: ph.Map, Min: 1, Max: 2, Suggested: []string{"os=", "arch=", "opt=1"}},
 			},
-			ArgCompl: []string{"alpha", "build-all", "zeta", "env=dev", "env=prod"}, // suggestions may contain `=`
+			ArgCompl: []string{"alpha", "build-all", "zeta", "env=dev", "env=prod", "/etc/hosts"}, // suggestions may contain `=` or be absolute paths
 			Cmds: []*ph.CmdDef{
 				{Name: "build", Desc: "b", Opts: []ph.OptDef{{Name: "target", Kind: ph.Str, Suggested: []string{"linux", "darwin"}}, {Name: "verify", Kind: ph.Bool}},
 					Cmds: []*ph.CmdDef{{Name: "fast", Opts: []ph.OptDef{{Name: "jobs", Kind: ph.Int}}}, {Name: "full"}}, ArgCompl: []string{"file1", "file2"}},
@@ -45,6 +45,10 @@ func defsC17() []*ph.Def {
 		Cmds:  []*ph.CmdDef{{Name: "a"}, {Name: "ab", Cmds: []*ph.CmdDef{{Name: "abc"}}}},
 		ArgFn: true, ArgCompl: []string{"a", "abd"},
 	}})
+	// require-order set on a command: behind its first argument nothing but arguments can stand
+	d = base()
+	d.Root.Cmds[0].RequireOrder = true
+	out = append(out, d)
 	// other modes (completion always uses normal interpretation of the line)
 	for _, mode := range []int{1, 2} {
 		d := base()
@@ -219,6 +223,64 @@ func c17Judge(cc *c17Case, verbose bool) ([]string, c17Info) {
 		}
 	}
 	// zone U12: earlier words do not parse, last word in the value position of an option, after `--`
+	if ex.StopIdx == len(probe)-1 {
+		ex.StopIdx = -1 // the placeholder itself is the first argument: the word being completed stands where an option or command still can
+	}
+	if !exE.Err && len(exE.Unspec) == 0 && len(ex.Unspec) == 0 && ex.TermIdx < 0 && ex.StopIdx >= 0 && len(exE.Unknowns) == 0 {
+		// behind the require-order stop point only arguments can stand.  What is offered there is not specified as a
+		// set, but the universal clause still holds: an offered option or command is accepted by the parser at that position.
+		info.kind = "behind_the_require_order_stop"
+		for _, l := range lines {
+			tok := strings.TrimSuffix(l, " ")
+			if tok == "" {
+				continue
+			}
+			argv := append(append([]string{}, cc.Earlier...), tok)
+			if strings.HasPrefix(tok, "-") {
+				name := candName(tok)
+				if strings.HasSuffix(tok, "=") {
+					argv[len(argv)-1] = tok + "1"
+				}
+				p2 := ph.Build(cc.Def, nil)
+				o2 := p2.Run(argv, false)
+				p2.Close()
+				called := false
+				for path, c := range o2.Called {
+					if c && strings.HasSuffix(path, "/"+name) {
+						called = true
+					}
+				}
+				if !called && !o2.HasErr {
+					out = append(out, fmt.Sprintf("completion: option %q is offered behind the require-order stop point after %q, where the parser does not take it as an option (remaining %q)", tok, cc.Earlier, o2.Remaining))
+				}
+				continue
+			}
+			isCmd := false
+			var walk func(c *ph.CmdDef)
+			walk = func(c *ph.CmdDef) {
+				for _, k := range c.Cmds {
+					if k.Name == tok {
+						isCmd = true
+					}
+					walk(k)
+				}
+			}
+			walk(&cc.Def.Root)
+			if !isCmd {
+				continue
+			}
+			p2 := ph.Build(cc.Def, nil)
+			o2 := p2.Run(argv, true)
+			p2.Close()
+			if !o2.HasErr && len(o2.Calls) == 1 && !strings.HasSuffix("/"+o2.Calls[0].Path, "/"+tok) && contains(o2.Remaining, tok) {
+				out = append(out, fmt.Sprintf("completion: command %q is offered behind the require-order stop point after %q, where the parser takes it as an argument (function %q ran with %q)", tok, cc.Earlier, "/"+o2.Calls[0].Path, o2.Remaining))
+			}
+		}
+		if len(lines) > 0 {
+			info.inDomain = true
+		}
+		return out, info
+	}
 	if exE.Err || len(exE.Unspec) > 0 || len(ex.Unspec) > 0 || ex.TermIdx >= 0 || ex.StopIdx >= 0 || len(exE.Unknowns) > 0 {
 		return out, info
 	}
@@ -428,10 +490,10 @@ func init() {
 	register(&Check{
 		ID:        "C17",
 		QuickSecs: 300, ThoroSecs: 1500,
-		Rule: "input-space exploration of the completion path, in-process (exit function and completion writer replaced through an overlay-only file): 5 trees (aliases, suggested and valid values, value completion function, static and dynamic argument completions, UnsetOptions wrapper, nested commands, with and without help command, lonesome dash, all three modes) x every sequence of earlier words of length <= Le over long options with values, command names and a positional " +
+		Rule: "input-space exploration of the completion path, in-process (exit function and completion writer replaced through an overlay-only file): 6 trees (aliases, suggested and valid values, value completion function, static and dynamic argument completions, UnsetOptions wrapper, nested commands, with and without help command, lonesome dash, require-order on a command, all three modes) x every sequence of earlier words of length <= Le over long options with values, command names and a positional " +
 			"x last word in {every prefix of every option name/alias and command/suggestion of the level reached, `-`, `--`, empty, `--k=`, `--k=<prefix>`, non-matching} x bash/zsh x three argument conventions of Parse, and (bash) the same line with its words separated by two blanks or by a tab; offered option names / commands / values compared as sets with the set computed from the definition and the reference model's level, " +
 			"sortedness, parser acceptance of every offered option and command, no CommandFn, exit path (also when the stream the candidates are written to fails); three cases with a dynamic completion function that takes 1.5 s to answer; distinct_nontrivial = distinct in-domain (definition, COMP_LINE, target, convention) cases",
-		Assume: []string{"zone U12 (last word in the value position of the previous option, after `--`, after words that do not parse) is executed but not compared", "require-order is not combined with completion"},
+		Assume: []string{"zone U12 (last word in the value position of the previous option, after `--`, after words that do not parse) is executed but not compared", "behind a require-order stop point the candidate set is not compared; only the acceptance of every offered option and command is"},
 		Run: func(c *RunCtx) {
 			res := c.Res
 			le := 2
